@@ -419,4 +419,92 @@ def chunkFramesClass (x : CdsD) (c : Win) : String :=
     if b.2 - b.1 < o then "first-exon-shorter-than-offset" else "unclassified"
   | _ => "unclassified"
 
+/-! ### clause "query order": the answers do not depend on which view was asked for first
+
+  The chunk-relative view is a RESTRICTION of the chromosome view, not a state of the object: every observable,
+  recorded on two fresh chunk-built objects — chromosome-level views first / chunk-relative views first — is the
+  same text.  (Each single observable is judged by its own clause above; a trailing `@k` / `@c` on an op line only
+  says which views were evaluated before it.) -/
+
+/-- the two recordings (token lists, one cell per observable, in one fixed order) coincide -/
+def okOrder (ck kc : List String) : Bool := !ck.isEmpty && ck == kc
+
+/-- name of the first observable whose recording differs (cells start with a `;name` token) -/
+def firstDifference : List String → List String → String → String
+  | a :: as, b :: bs, cur =>
+    let cur' := if a.startsWith ";" then a else cur
+    if a == b then firstDifference as bs cur' else cur'
+  | [], [], _ => "none"
+  | _, _, cur => cur
+
+/-! ### clause "alternative constructors"
+
+  An interval reached through `from_chunk_relative_location`, `from_dict(…, parent_or_seq_chunk_parent=chunk)`,
+  `liftover_to_parent_or_seq_chunk_parent(chunk)` or `incorporate_variants(<length-preserving SNV>)` IS the interval
+  the ordinary constructor builds on that chunk from the same chromosome coordinates: every clause above applies to
+  it unchanged (the op lines carry `via:<ctor>`), and compared with the ordinarily constructed object, node by
+  node, nothing differs (`okAltCtor`). -/
+
+inductive Via where
+  | fcrl | dict | lift | relift | snv (p : Nat)
+  deriving Repr, DecidableEq
+
+/-- no two consecutive blocks touch or overlap -/
+def strictGaps : List Blk → Bool
+  | a :: b :: rest => decide (a.2 < b.1) && strictGaps (b :: rest)
+  | _ => true
+
+def insideWin (c : Win) (bs : List Blk) : Bool := bs.all (fun b => decide (c.w.1 ≤ b.1) && decide (b.2 ≤ c.w.2))
+
+/-- the block lists of a leaf interval (exons; CDS blocks) -/
+def Desc.blockLists : Desc → Option (List (List Blk))
+  | .feat f => some [f.blocks]
+  | .cds x => some [x.exons.map (·.1)]
+  | .tx t => some (t.exons :: (if t.cds.isEmpty then [] else [t.cds.map (·.1)]))
+  | _ => none
+
+/-- the inputs about which the clause speaks:
+    * chunk-relative constructors (`fcrl`, `snv`): a feature / transcript / CDS lying inside the chunk, no two blocks
+      touching (a chunk-relative location is a set of positions; touching blocks denote the same set as their union);
+      `snv`: the variant lies in the chunk, and a CDS is in one uninterrupted reading frame (its frames are re-derived);
+    * dictionary-based ones: an AnnotationCollection with explicit bounds (inferred bounds belong to the parent). -/
+def Via.applies (v : Via) (d : Desc) (c : Win) : Bool :=
+  match v with
+  | .fcrl | .snv _ =>
+    (match d.blockLists with
+     | none => false
+     | some ls => ls.all (fun bs => insideWin c bs && strictGaps bs)) &&
+    (match v with
+     | .snv p => decide (c.w.1 ≤ p) && decide (p < c.w.2) &&
+                 (match d.coding with | some x => oneFrame x | none => true)
+     | _ => true)
+  | _ => match d with | .ac ⟨_, _, none⟩ => false | _ => true
+
+/-- one node of a `same` answer: class tag, then equal? flags (`none` = not compared) for: chromosome location with
+    `start`/`end`, chunk-relative location, `to_dict()` coordinates, identifier, spliced / reference sequence -/
+structure SameAns where
+  rows : List (Char × List (Option Bool))
+  /-- of the CDS of a CDS / coding transcript: frames, coding sequence, translation -/
+  tail : List (Option Bool)
+  deriving Repr
+
+/-- result ≡ ordinary construction on the same chunk: the same nodes, and no compared observable differs -/
+def okAltCtor (d : Desc) (c : Win) (ans : Option SameAns) : Bool :=
+  match ans with
+  | none => false
+  | some a =>
+    a.rows.map (·.1) == (expectNodes d c).map (·.tag) &&
+    a.rows.all (fun r => r.2.all (· != some false)) && a.tail.all (· != some false)
+
+/-- label only: the chromosome-level half of a `loc` answer is right, the deviation is in the chunk-relative view -/
+def chromosomeHalfOk (d : Desc) (c : Win) (ans : Option (List NodeAns)) : Bool :=
+  match ans with
+  | none => false
+  | some ns =>
+    let es := expectNodes d c
+    ns.length == es.length &&
+    (es.zip ns).all (fun p => match p.2 with
+      | .dropped => false
+      | .node tag s en chrom _ => tag == p.1.tag && s == p.1.start && en == p.1.«end» && sameBlocks chrom p.1.chrom)
+
 end BioCantor.Spec.Chunk
